@@ -916,6 +916,27 @@ func estOf[K comparable](s *sketch[K], k K) uint64 {
 //@   ensures [C20:quiet] ghost_hits() == pre(ghost_hits()) && ghost_misses() == pre(ghost_misses())
 //@   ensures [wiring-kept] pre(wired(c)) ==> wired(c)
 
+//@ func (*cache).CleanUp : C13 C04 C05
+//@   requires cfg(c)
+//@   modifies $MAINT, ghost_calls_performCleanUp()
+//@   ensures [C13:clean-up-runs-maintenance] ghost_calls_performCleanUp() == pre(ghost_calls_performCleanUp()) + 1 && ghost_last_performCleanUp_t[K, V]() == nil
+//@   ensures [wiring-kept] wired(c)
+//@   ensures [clock-stable] pre(ghost_clockRead()) ==> ghost_clockRead() && ghost_now() == pre(ghost_now())
+
+//@ func (*cache).WeightedSize : C05
+//@   requires cfg(c)
+//@   modifies $MAINT
+//@   site rescheduleCleanUpIfIncomplete: requires [C05:reports-the-policy-total-read-under-the-eviction-lock] !c.isWeighted || result == c.evictionPolicy.weightedSize
+//@   ensures [C05:unweighted-cache-reports-zero] !c.isWeighted ==> result == 0 && ghost_calls_maintenance() == pre(ghost_calls_maintenance())
+//@   ensures [wiring-kept] wired(c)
+
+//@ func (*cache).GetMaximum : C04
+//@   requires cfg(c)
+//@   modifies $MAINT
+//@   site rescheduleCleanUpIfIncomplete: requires [C04:reports-the-maximum-in-force] result == c.evictionPolicy.maximum && result == pre(c.evictionPolicy.maximum)
+//@   ensures [C07:unbounded-cache-has-no-maximum] !c.withEviction ==> result == math.MaxUint64
+//@   ensures [wiring-kept] wired(c)
+
 //@ func (*cache).deleteNodeFromMap : C01 C03 C06 C09 C05 C07
 //@   mode seq,itf
 //@   requires cfg(c) && c.singleflight != nil && n != nil
@@ -1277,7 +1298,7 @@ func estOf[K comparable](s *sketch[K], k K) uint64 {
 //@ func SaveCacheTo : C19
 //@   requires c != nil && c.cache != nil && cfg(c.cache) && c.cache.singleflight != nil
 //@   modifies *
-//@   site Encode: requires [C19:saved-within-bound] true
+//@   site SaveCacheTo$1.Encode: requires [C19:only-live-entries-within-the-bound-are-saved] size < maximum && (!c.cache.withExpiration || entry.ExpiresAtNano > entry.SnapshotAtNano)
 
 //@ func (*group).doBulkCall : C10 C08 C01 C11
 //@   counted
